@@ -11,6 +11,8 @@ RULE = ("a case is a program: open/write_segment/close calls; slices: structure 
 
 CONFIGS = {
     "quick": [("MC_C07", "MC_C07_struct.cfg", {"MaxCalls": 2}),
+              # programs containing a call the writer refuses (RefusedWrite: raises, nothing written, nothing remembered)
+              ("MC_C07", "MC_C07_struct.cfg", {"MaxCalls": 2, "MaxRefused": 1, "ObjSeqs": "c_SeqsRefuse", "Lens": "{2}"}),
               ("MC_C07", "MC_C07_classes.cfg", {"MaxCalls": 2, "Lens": "{0, 3}"}),
               # arrays larger than any internal block size (1 MiB), to a stream and to a path
               ("MC_C07", "MC_C07_classes.cfg", {"MaxCalls": 1, "MaxSessions": 1, "Lens": "{150001}",
@@ -18,6 +20,7 @@ CONFIGS = {
               ("MC_C07", "MC_C07_props.cfg", {"MaxCalls": 1, "PropNamesW": '{"p1"}'}),
               ("MC_C07", "MC_C07_props.cfg", {"MaxCalls": 2, "ValueClasses": "c_FewValueClasses", "PropNamesW": '{"p1"}'})],
     "thorough": [("MC_C07", "MC_C07_struct.cfg", {"MaxCalls": 3, "Lens": "{2}"}),
+                 ("MC_C07", "MC_C07_struct.cfg", {"MaxCalls": 3, "MaxRefused": 2, "ObjSeqs": "c_SeqsRefuse", "Lens": "{2}"}),
                  ("MC_C07", "MC_C07_classes.cfg", {"MaxCalls": 3}),
                  ("MC_C07", "MC_C07_props.cfg", {"MaxCalls": 1}),
                  ("MC_C07", "MC_C07_props.cfg", {"MaxCalls": 2, "ValueClasses": "c_FewValueClasses"})],
